@@ -5,9 +5,9 @@ import RaftGen.Props.C15PipeSys
 /-!
 Search for a model-level counterexample after `RaftGen/Props/C15Pipe.lean` no longer builds: for every system of that file, the
 shortest schedule (which goroutine moves, step by step) to a state that violates the property, printed with process names and
-program counters (the generated file gives the source line of every program counter). Also prints the two schedules that the
-theorems `recover_path_sends_on_closed` and `writer_can_outlive_replicate` are about, and repeats the no-panic check with larger
-capacities of `resultCh` (outside the kernel). Imports the generated skeletons, the executable exploration and the
+program counters (the generated file gives the source line of every program counter). Also prints the schedule of the observation
+`recover_path_sends_on_closed` (`Notes/PipeObservations.lean`; informative, not a failure when it is gone) and repeats the no-panic
+check with larger capacities of `resultCh` (outside the kernel). Imports the generated skeletons, the executable exploration and the
 definitions of the systems (`Props/C15PipeSys.lean`) only — not the theorems.
 -/
 open Raft Raft.Chan
@@ -27,16 +27,31 @@ def report (thm what : String) (y : Sys) (fuel : Nat) (P : State → Bool) : IO 
     return true
   | none => return false
 
-/-- a schedule that a theorem asserts to exist: missing = counterexample to that theorem -/
-def witness (thm what : String) (y : Sys) (fuel : Nat) (P : State → Bool) : IO Bool := do
+/-- a schedule that documents an observation (not an obligation) -/
+def observe (name what : String) (y : Sys) (fuel : Nat) (P : State → Bool) : IO Unit := do
   match findBad y fuel P with
   | some tr =>
-    IO.println s!"WITNESS {thm} {what}: schedule of {tr.length} steps:"
+    IO.println s!"OBSERVATION {name} {what}: schedule of {tr.length} steps:"
     IO.println (showTrace y tr)
-    return false
-  | none =>
-    IO.println s!"COUNTEREXAMPLE {thm}: the schedule the theorem asserts ({what}) no longer exists"
-    return true
+  | none => IO.println s!"OBSERVATION {name}: no such schedule any more ({what})"
+
+/-- successors of a node through an edge that is not a send on `c` (as in `C15Pipe.lean`) -/
+def succAvoiding (c : Nat) : Node → List Nat
+  | .comm cs d => (cs.filter fun k => !(k.send && Nat.beq k.chan c)).map (·.next) ++ d.toList
+  | .close _ n => [n]
+  | .choice ns => ns
+  | .halt => []
+  | .recvOrClosed _ a b => [a, b]
+def reachAvoiding (p : Proc) (c : Nat) : Nat → List Nat → List Nat → Option (List Nat)
+  | _, [], seen => some seen
+  | 0, _ :: _, _ => none
+  | fuel + 1, x :: work, seen =>
+    bif memNat x seen then reachAvoiding p c fuel work seen
+    else reachAvoiding p c fuel (succAvoiding c (p.code.getD x .halt) ++ work) (x :: seen)
+def isExitNode : Node → Bool
+  | .halt => true
+  | .close _ _ => true
+  | _ => false
 
 end PipeSearch
 open PipeSearch Raft.C15Pipe
@@ -50,20 +65,28 @@ def main : IO UInt32 := do
   if ← report "reader_never_stuck_after_writer_exit" "the writer has returned and the reader is stuck on resultCh / drained"
       pipeSys 20000 (fun s => !halted pipeSys s writer || halted pipeSys s reader || inNotifyLdr pipeSys s reader ||
         enabledStrict pipeSys s reader || live pipeSys s drainerStop || live pipeSys s drainerStale) then found := true
-  if ← report "next_iteration_only_after_writer_exit" "the reader goes on to the next iteration while the old writer can still communicate"
-      pipeSys 20000 (fun s => !Nat.beq (s.pc reader) Gen.pipeReader_next || onExitPath pipeSys s writer) then found := true
-  if ← report "writer_terminates_once_stopped / episode_ends_with_writer_able_to_finish"
-      "after close(stopCh) (or after the reader left) the writer cannot run to its return on its own"
-      pipeSys 20000 (fun s => !((s.isClosed stopCh || readerLeft s) && !writerWaitsForLeader s) ||
-        canReach pipeSys 100 [writer] (halted pipeSys · writer) s) then found := true
+  if ← report "reader_returns_only_after_writer_done" "the reader has left the episode (returned / next iteration) while the writer is not yet past its last communication"
+      pipeSys 20000 (fun s => !readerLeft s || onExitPath pipeSys s writer) then found := true
+  if ← report "writer_never_outlives_reader" "the reader has left the episode while the writer is about to execute / executing writeAppendEntriesReq"
+      pipeSys 20000 (fun s => !readerLeft s || !memNat (s.pc writer) Gen.pipeWriter_at_write) then found := true
+  if ← report "every_written_request_is_reported (dynamic part)" "the writer stands just after a successful writeAppendEntriesReq but the reader has left / resultCh is closed"
+      pipeSys 20000 (fun s => !writerHasWritten s || (!readerLeft s && !s.isClosed resultCh)) then found := true
+  match reachAvoiding Gen.pipeWriter resultCh 1000 Gen.pipeWriter_at_written [] with
+  | some pcs =>
+    let bad := pcs.filter fun pc => isExitNode (Gen.pipeWriter.code.getD pc .halt)
+    if !bad.isEmpty then
+      IO.println s!"COUNTEREXAMPLE every_written_request_is_reported: in the control-flow graph of pipeWriter the exit nodes {bad} can be reached from {Gen.pipeWriter_at_written} (just after a successful writeAppendEntriesReq) without a send on resultCh; nodes on the way: {pcs.reverse}"
+      found := true
+  | none => IO.println "every_written_request_is_reported: out of fuel"; found := true
+  if ← report "writer_terminates_once_stopped"
+      "after close(stopCh) the goroutines of the episode cannot bring the writer to its return (and it is not waiting for the leader)"
+      pipeSys 20000 (fun s => !(s.isClosed stopCh && !writerWaitsForLeader s) || writerCanFinish s) then found := true
   if ← report "replication_can_finish_once_stopped" "r.stopCh is closed and the goroutines of the episode cannot all finish"
-      pipeSys 20000 (fun s => !s.isClosed rStopCh || canReach pipeSys 300 goroutines allDone s) then found := true
+      pipeSys 20000 (fun s => !s.isClosed rStopCh || episodeCanFinish s) then found := true
   if ← report "recover_path_is_the_only_panic" "variant P panics somewhere else than in the send of the deferred function"
       pipeSysP 20000 (fun s => noPanic s || memNat (s.pc writer) Gen.pipeWriterP_at_recoverSend) then found := true
-  if ← witness "recover_path_sends_on_closed" "writeAppendEntriesReq panics; the deferred function closes resultCh and then sends on it"
-      pipeSysP 20000 (fun s => noPanic s || !memNat (s.pc writer) Gen.pipeWriterP_at_recoverSend) then found := true
-  if ← witness "writer_can_outlive_replicate" "the reader has returned from replicate() while the writer is in writeAppendEntriesReq"
-      pipeSys 20000 (fun s => !(Nat.beq (s.pc reader) Gen.pipeReader_ret && memNat (s.pc writer) Gen.pipeWriter_at_write)) then found := true
+  observe "recover_path_sends_on_closed" "writeAppendEntriesReq panics; the deferred function closes resultCh and then sends on it"
+      pipeSysP 20000 (fun s => noPanic s || !memNat (s.pc writer) Gen.pipeWriterP_at_recoverSend)
   -- larger capacities of resultCh (outside the kernel): no panic, the writer closes resultCh, the writer can finish once stopped
   for cap in [1, 3, 4, 8, 16] do
     let y := pipeSysN cap 2
